@@ -87,13 +87,37 @@ def isqrt(x):
     import math
     return math.isqrt(x)
 
+def limb_carry_pair(rng, s, n):
+    """operands of a four-limb schoolbook product built at a carry boundary: the sum of the cross terms lh*rl + ll*rh (plus the
+    high half of ll*rl) lands within a few units of a multiple of 2^n, where a lost or doubled carry shows"""
+    h = n // 2
+    H = 1 << h
+    lo, hi = rng_range(s, n)
+    lh = rng.randrange(1, H >> (1 if s else 0))
+    rl = rng.randrange(1, H)
+    rh = rng.randrange(1, H >> (1 if s else 0))
+    target = (1 << n) * rng.choice([1, 1, 2]) - rng.choice([0, 1, 2, H, rng.randrange(H)])
+    ll = (target - lh * rl) // rh + rng.randint(-1, 1)
+    ll = min(max(ll, 0), H - 1)
+    a = lh * H + ll
+    b = rh * H + rl
+    if s and rng.random() < 0.5:
+        # the cancelling negative-then-positive wrap: a small negative times a value near MIN
+        a = -rng.choice([1, 2, 3, H - 1, H, H + 1])
+        b = lo + rng.randrange(0, 2 * H)
+    if s and rng.random() < 0.3:
+        a = -a
+    return clip(s, n, a), clip(s, n, b)
+
 def mul_pairs(rng, s, n, f, E, count):
     """operand pairs whose exact product is near the representable boundary, plus generic ones"""
     lo, hi = rng_range(s, n)
     out = []
     for _ in range(count):
         r = rng.random()
-        if r < 0.35:
+        if n == 128 and r < 0.2:
+            out.append(limb_carry_pair(rng, s, n))
+        elif r < 0.35:
             # product within a few ulps of (MAX+1)*2^f or MIN*2^f
             target = rng.choice([(hi + 1) << f, lo << f, (hi << f), ((hi + 1) << f) - 1])
             a = rand_val(rng, s, n, f, E)
